@@ -1,5 +1,6 @@
 import PetgraphModel.Proofs.C11
 import PetgraphModel.Proofs.C11Models
+import PetgraphModel.Proofs.C11W2
 /-
 C11 — `bellman_ford`, `spfa`, `floyd_warshall(_path)`, `find_negative_cycle` are exact with
 negative costs.
@@ -17,7 +18,7 @@ ties to /repo by exact differential execution.
 -/
 namespace PetgraphModel.C11T
 open PetgraphModel PetgraphModel.MGraph PetgraphModel.Oracle PetgraphModel.C11J PetgraphModel.C11P
-open PetgraphModel.C11M PetgraphModel.C11MP
+open PetgraphModel.C11M PetgraphModel.C11MP PetgraphModel.C11W2
 
 /-! ## Part 1 — the judges -/
 
@@ -292,6 +293,109 @@ theorem C11_floyd_prev_partial (B : Meas) (v : View) (hwf : v.g.WellFormed) (Wm 
     (st : FW) (h : floydWarshall B v = some st) :
     ∀ i ∈ v.g.nodes, ∀ j y, tget st.d (i, j) = some y → IsShortest v.g i j y :=
   fun i hi => (floydWarshall_ok B v hwf Wm hWm hW hfit st h i hi).1
+
+/-- **floyd_warshall_path, the predecessor matrix** (wave 2; `C11_floyd_prev_statement` with the
+width hypothesis of `C11_floyd_ok` added — without it the statement is false, see
+`C11_floyd_prev_statement_false_witness`).  In an `Ok` result the entries `prev[i][·]` lead from `i`
+to every `j` with a finite `dist[i][j]` along arcs of the graph at exactly that (shortest)
+distance; in particular the predecessor graph of every row is acyclic.  Proof
+(`Proofs/C11W2.lean`): at the pass boundaries every finite entry of every row hangs in the tree
+of its row along good arcs (`dist[i][q] + w ≤ dist[i][j]`) with tail in `{i} ∪ K`; a pass through `k`
+grafts pieces of row `k` onto row `i`, and because row `k` is a feasible potential for the arcs with
+tail in `K`, an entry that is not replaced has no replaced ancestor. -/
+theorem C11_floyd_prev (B : Meas) (v : View) (hwf : v.g.WellFormed) (Wm : Int) (hWm : 0 ≤ Wm)
+    (hW : ∀ e ∈ v.g.edges, -Wm ≤ e.w ∧ e.w ≤ Wm)
+    (hfit : dbl v.g.nodes.length Wm + Wm < B.max ∧ B.min ≤ -(dbl v.g.nodes.length Wm))
+    (st : FW) (h : floydWarshall B v = some st) :
+    ∀ i ∈ v.g.nodes, ∀ j ∈ v.g.nodes, i ≠ j → ∀ y, tget st.d (i, j) = some y →
+      TreeWalk v.g (fun x => if x == i then none else tget st.p (i, x)) i j y :=
+  fun i hi j _ _ y hy => floydWarshall_prev B v hwf Wm hWm hW hfit st h i hi j y hy
+
+/-- the same for every `j` (the diagonal and ids outside the graph included) -/
+theorem C11_floyd_prev_all (B : Meas) (v : View) (hwf : v.g.WellFormed) (Wm : Int) (hWm : 0 ≤ Wm)
+    (hW : ∀ e ∈ v.g.edges, -Wm ≤ e.w ∧ e.w ≤ Wm)
+    (hfit : dbl v.g.nodes.length Wm + Wm < B.max ∧ B.min ≤ -(dbl v.g.nodes.length Wm))
+    (st : FW) (h : floydWarshall B v = some st) :
+    ∀ i ∈ v.g.nodes, ∀ j y, tget st.d (i, j) = some y →
+      TreeWalk v.g (fun x => if x == i then none else tget st.p (i, x)) i j y :=
+  floydWarshall_prev B v hwf Wm hWm hW hfit st h
+
+/-- **`prev[i][j]` is the penultimate node of a shortest walk from `i` to `j`**: off the diagonal
+there is no entry exactly for the pairs without a walk, and an entry `q` is the tail of an arc
+`q → j` of cost `w` with `dist[i][j] = dist[i][q] + w`, both distances exact. -/
+theorem C11_floyd_prev_penultimate (B : Meas) (v : View) (hwf : v.g.WellFormed) (Wm : Int) (hWm : 0 ≤ Wm)
+    (hW : ∀ e ∈ v.g.edges, -Wm ≤ e.w ∧ e.w ≤ Wm)
+    (hfit : dbl v.g.nodes.length Wm + Wm < B.max ∧ B.min ≤ -(dbl v.g.nodes.length Wm))
+    (st : FW) (h : floydWarshall B v = some st) :
+    ∀ i ∈ v.g.nodes, ∀ j, j ≠ i →
+      (tget st.p (i, j) = none ↔ ¬ ∃ c, WalkCost v.g i j c) ∧
+      (∀ q, tget st.p (i, j) = some q →
+        ∃ a w, IsShortest v.g i q a ∧ tget st.d (i, q) = some a ∧ (q, j, w) ∈ v.g.arcs ∧
+          tget st.d (i, j) = some (a + w) ∧ IsShortest v.g i j (a + w)) :=
+  floydWarshall_prev_arc B v hwf Wm hWm hW hfit st h
+
+/-- witness against `C11_floyd_prev_statement` as written (no width hypothesis): arcs `0→1` (−3),
+`1→2` (−4), `0→3` (−2), `3→1` (−2) over a cost type with `max() = 7`, `min() = −7`.  Pass `1` sets
+`dist[0][2] = −7`, `prev[0][2] = 1`; pass `3` improves `dist[0][1]` to `−4`, but the matching
+improvement `dist[0][2] = −8` overflows and is skipped, so the chain `0 → 3 → 1 → 2` of `prev[0][·]`
+costs `−8 ≠ dist[0][2]`.  (The same happens for `i32` with these costs scaled by `2^28` and
+`1→2` one less: `overflowing_add` reports the overflow and petgraph skips the relaxation.) -/
+def prevCexView : View :=
+  { g := { directed := true, nodes := [0, 1, 2, 3],
+           edges := [⟨0, 0, 1, -3⟩, ⟨1, 1, 2, -4⟩, ⟨2, 0, 3, -2⟩, ⟨3, 3, 1, -2⟩] },
+    nb := 4, ix := [(0, 0), (1, 1), (2, 2), (3, 3)], out := [], inn := [] }
+
+theorem treeWalk_inv {g : MGraph} {pred : Nat → Option Nat} {s v : Nat} {c : Int}
+    (h : TreeWalk g pred s v c) :
+    (v = s ∧ c = 0) ∨ ∃ u c' w, pred v = some u ∧ TreeWalk g pred s u c' ∧ (u, v, w) ∈ g.arcs ∧ c = c' + w := by
+  cases h with
+  | root => exact Or.inl ⟨rfl, rfl⟩
+  | step h1 hp harc => exact Or.inr ⟨_, _, _, hp, h1, harc, rfl⟩
+
+set_option maxRecDepth 8000 in
+theorem C11_floyd_prev_statement_false_witness : ¬ C11_floyd_prev_statement := by
+  intro hS
+  have harcs : prevCexView.g.arcs = [(0, 1, -3), (1, 2, -4), (0, 3, -2), (3, 1, -2)] := by decide
+  have hwf : prevCexView.g.WellFormed := wfB_sound _ (by decide)
+  have facts : (match floydWarshall ⟨7, -7⟩ prevCexView with
+      | some st => (tget st.d (0, 2), tget st.p (0, 2), tget st.p (0, 1), tget st.p (0, 3))
+      | none => (none, none, none, none)) = (some (-7), some 1, some 3, some 0) := by decide
+  cases hfw : floydWarshall ⟨7, -7⟩ prevCexView with
+  | none => rw [hfw] at facts; simp at facts
+  | some st =>
+    rw [hfw] at facts
+    simp only [Prod.mk.injEq] at facts
+    obtain ⟨hd, hp2, hp1, hp3⟩ := facts
+    have htw := hS ⟨7, -7⟩ prevCexView st hwf hfw 0 (by decide) 2 (by decide) (by decide) (-7) hd
+    rcases treeWalk_inv htw with ⟨h, _⟩ | ⟨u2, c2, w2, hq2, ht2, ha2, he2⟩
+    · omega
+    · simp only [show ((2 : Nat) == 0) = false by decide, hp2] at hq2
+      cases hq2
+      rcases treeWalk_inv ht2 with ⟨h, _⟩ | ⟨u1, c1, w1, hq1, ht1, ha1, he1⟩
+      · omega
+      · simp only [show ((1 : Nat) == 0) = false by decide, hp1] at hq1
+        cases hq1
+        rcases treeWalk_inv ht1 with ⟨h, _⟩ | ⟨u3, c3, w3, hq3, ht3, ha3, he3⟩
+        · omega
+        · simp only [show ((3 : Nat) == 0) = false by decide, hp3] at hq3
+          cases hq3
+          rcases treeWalk_inv ht3 with ⟨_, h0⟩ | ⟨u0, c0, w0, hq0, _, _, _⟩
+          · rw [harcs] at ha2 ha1 ha3
+            simp at ha2 ha1 ha3
+            omega
+          · simp at hq0
+
+/- the `i32` instance of the witness (outside the width hypothesis of `C11_floyd_prev`): the model
+answers `dist[0][2] = −1879048193` with `prev[0][2] = 1`, although `dist[0][1] + cost(1→2) =
+−1073741824 − 1073741825 = −2^31 − 1` (the relaxation through `3` that would have stored it overflowed) -/
+set_option maxRecDepth 8000 in
+example :
+    (match floydWarshall Meas.i32
+        { prevCexView with g := { prevCexView.g with edges :=
+          [⟨0, 0, 1, -805306368⟩, ⟨1, 1, 2, -1073741825⟩, ⟨2, 0, 3, -536870912⟩, ⟨3, 3, 1, -536870912⟩] } } with
+      | some st => (tget st.d (0, 2), tget st.p (0, 2), tget st.d (0, 1))
+      | none => (none, none, none)) = (some (-1879048193), some 1, some (-1073741824)) := by
+  decide
 
 /-! ### the hypotheses are satisfiable, and the D15 witness -/
 
